@@ -30,7 +30,7 @@ type single struct {
 	Extra string `json:"extra,omitempty"`
 }
 
-var extras = []string{"preamble", "noformat", "preamble+noformat", "canonical", "anon", "comments", "preamble+anon", "anonself", "latealias"}
+var extras = []string{"preamble", "noformat", "preamble+noformat", "canonical", "anon", "comments", "preamble+anon", "anonself", "latealias", "samename"}
 
 func extraOps(extra string) []recipe.FileOp {
 	var ops []recipe.FileOp
@@ -58,6 +58,13 @@ func (c single) scenario() imps.Scenario {
 		sc.File.Ops = append(sc.File.Ops, recipe.FileOp{Op: "PackagePrefix", Args: []recipe.Text{recipe.Text(c.Prefix)}})
 	}
 	sc.File.Ops = append(sc.File.Ops, extraOps(c.Extra)...)
+	if c.Extra == "samename" {
+		// the generated package is called like the package it refers to (an errors package wrapping errors,
+		// a log package around log): a name is not a path
+		if n := stdpkg.Name(c.Path); n != "" && n != "main" {
+			sc.File.Args = []recipe.Text{recipe.Text(n)}
+		}
+	}
 	if c.Extra == "latealias" {
 		// the File is rendered once, then an alias is asked for: the package keeps the name it was shown under
 		sc.File.Ops = append(sc.File.Ops, recipe.FileOp{Op: "ImportAlias", Args: []recipe.Text{recipe.Text(c.Path), "zzlate"}})
@@ -269,6 +276,13 @@ func TestC18(t *testing.T) {
 		}
 		sc.Paths = rapid.Permutation(sc.Paths).Draw(rt, "order")
 		sc.File.Body = imps.GenBody(rt, sc.Paths, imps.Profile{})
+		if sc.Split == 0 && rapid.IntRange(0, 3).Draw(rt, "fragmentsfirst") == 2 {
+			// the last statements are first shown as fragments rendered against the File (last one first), then
+			// the File is rendered twice: it meets the packages in another order than its body has them
+			sc.Split = len(sc.File.Ops) + 1
+			sc.Preview = rapid.IntRange(1, len(sc.File.Body)).Draw(rt, "npreview")
+			r.Class("sets_with_fragment_previews")
+		}
 		if collide {
 			r.Class("colliding_std_names")
 			r.NonTrivial(recipe.JSON(sc))
